@@ -44,7 +44,7 @@ func init() { tr.Register("rescan", Run) }
 const (
 	nScripts   = 9 // scripts 1..8 are payable, 9 is the coinbase script (never watched)
 	extBase    = 1000
-	nExt       = 3 // external outpoints 1000.0 .. 1002.0 with scripts 5,6,7
+	nExt       = 6 // external outpoints 1000.0 .. 1005.0 (created outside the scanned range), see extIn
 	retryMs    = 100
 	safeWindow = 50 * time.Millisecond
 )
@@ -72,6 +72,14 @@ func init() {
 		}
 		addrs[i], scripts[i] = a, s
 	}
+}
+
+// extIn: the e-th external outpoint with the script it pays.  0..2 pay scripts 5,6,7 (never watched as addresses by the
+// generator's initial sets), 3..5 pay scripts 1,2,3, i.e. addresses the rescan usually watches already: adding such an
+// outpoint by Update(AddInputs) puts nothing new on the script watch list, only the outpoint itself, and a later spend of
+// it can be found through the outpoint alone.
+func extIn(e int) inDef {
+	return inDef{outp{extBase + e, 0}, [nExt]int{5, 6, 7, 1, 2, 3}[e]}
 }
 
 // ---- ground truth ---------------------------------------------------------------------------------------------------
@@ -930,7 +938,7 @@ func (h *H) randTxs(prev *blk, dense bool) []*txDef {
 				ins = append(ins, outs[rng.Intn(len(outs))])
 			case rng.Intn(2) == 0:
 				e := rng.Intn(nExt)
-				ins = append(ins, inDef{outp{extBase + e, 0}, 5 + e})
+				ins = append(ins, extIn(e))
 			default:
 				ins = append(ins, inDef{outp{extBase + 100 + rng.Intn(50), rng.Intn(2)}, 8})
 			}
@@ -1137,7 +1145,7 @@ func (h *H) randUpdate(c caseCfg) {
 		u.addrs = []int{1 + rng.Intn(4)}
 	case 1:
 		e := rng.Intn(nExt)
-		u.inputs = []inDef{{outp{extBase + e, 0}, 5 + e}}
+		u.inputs = []inDef{extIn(e)}
 	case 2:
 		u.addrs = []int{1 + rng.Intn(4)}
 		if h.callerCurH > 1 {
@@ -1285,6 +1293,28 @@ func probeMatch(h *H) {
 	}
 }
 
+// probeInputWatchedScript: an outpoint paying an already watched address is added by Update(AddInputs); the block that
+// spends it (paying nothing watched) must be delivered with that transaction; same after adding one together with a rewind.
+func probeInputWatchedScript(h *H) {
+	for h.mode == "catchup" {
+		h.opStep()
+	}
+	t := h.tree
+	h.opUpdate(upd{inputs: []inDef{extIn(3)}}) // script 1, watched as an address by the std case
+	b1 := t.mkBlock(h.tip(), []*txDef{t.mkTx([]inDef{extIn(3)}, []int{8})})
+	h.declare(b1)
+	h.opGrow(b1)
+	h.opNtfn()
+	b2 := t.mkBlock(b1, []*txDef{t.mkTx([]inDef{extIn(4)}, []int{8})})
+	h.declare(b2)
+	h.opGrow(b2)
+	h.opNtfn() // not watched yet: nothing owed
+	h.opUpdate(upd{inputs: []inDef{extIn(4)}, rewind: b1.height})
+	for k := 0; k < 4 && h.mode == "catchup"; k++ {
+		h.opStep()
+	}
+}
+
 // probeUnread: a block fetch failure drops the rescan into the catch-up arm while the disconnects of a three-deep
 // reorganisation are still unread in its subscription; they are lost and the catch-up arm goes on by height.
 func probeUnread(h *H) {
@@ -1374,6 +1404,7 @@ func Run(t *tr.W, thorough bool) {
 	runCase(t, rng, std("probe-current-reorg", probeCurrentReorg), &ticks)
 	runCase(t, rng, std("probe-retry", probeRetry), &ticks)
 	runCase(t, rng, std("probe-match", probeMatch), &ticks)
+	runCase(t, rng, std("probe-input-watched-script", probeInputWatchedScript), &ticks)
 	runCase(t, rng, std("probe-rewind-unread", probeRewindUnread), &ticks)
 	runCase(t, rng, std("probe-rewind-unread-shallow", probeRewindUnreadShallow), &ticks)
 	if variant {
@@ -1402,7 +1433,7 @@ func Run(t *tr.W, thorough bool) {
 		}
 		for e := 0; e < nExt; e++ {
 			if rng.Intn(4) == 0 {
-				c.wi = append(c.wi, inDef{outp{extBase + e, 0}, 5 + e})
+				c.wi = append(c.wi, extIn(e))
 			}
 		}
 		c.allowF13 = rng.Intn(10) == 0
